@@ -73,6 +73,14 @@ func NewSolver(timeoutMS int) *Solver {
 	return s
 }
 
+// NewSolverBin starts a pipe on another solver binary (the thorough tier's cross-checking solver).
+func NewSolverBin(bin string, timeoutMS int) *Solver {
+	s := &Solver{bin: bin, timeout: timeoutMS}
+	s.Stats.Fallback = map[string]int{}
+	s.start()
+	return s
+}
+
 func (s *Solver) start() {
 	s.args = []string{"-in", fmt.Sprintf("-t:%d", s.timeout)}
 	s.cmd = exec.Command(s.bin, s.args...)
